@@ -1,6 +1,7 @@
 // vchild executes a write script (C14): a comma separated list of
 //
 //	O<n> / E<n>  write n units to stdout / stderr (unit = $VCHILD_UNIT bytes, default 32768)
+//	B<n>         write n units to stdout and n units to stderr concurrently
 //	co / ce      close stdout / stderr
 //	p            pause 20 ms (adds schedule diversity only; no oracle depends on it)
 //	x<k>         exit with status k
@@ -48,6 +49,18 @@ func main() {
 				f = os.Stderr
 			}
 			f.Write(buf) // errors (closed descriptor) are ignored on purpose
+		case op[0] == 'B':
+			// both streams at the same time
+			n, _ := strconv.Atoi(op[1:])
+			bo, be := make([]byte, n*unit), make([]byte, n*unit)
+			for i := range bo {
+				bo[i], be[i] = byte('a'+wi%26), byte('a'+(wi+1)%26)
+			}
+			wi += 2
+			done := make(chan struct{})
+			go func() { os.Stderr.Write(be); close(done) }()
+			os.Stdout.Write(bo)
+			<-done
 		case op[0] == 'x':
 			k, _ := strconv.Atoi(op[1:])
 			os.Exit(k)
